@@ -694,6 +694,20 @@ def gen_special(rng, hid, which):
             sc.advance(rng.choice([500, 2000]))
             sc.deliver([r_a(s.addr_owner, "192.168.1.%d" % rng.randrange(200, 250), 120)], 2, v4=True)   # a new address: resolved again
         return sc.finish(rng.choice([2500, 5000]))
+    if which == "found-withdrawn":
+        # a PTR record and its goodbye in ONE packet (finding C04-found-withdrawn-in-same-message), or in
+        # two packets of one iteration / the goodbye first (controls: must pass)
+        s = Svc(rng, rng.choice(INST_LABELS), TY1, rng.choice(HOSTS), 2)
+        sc.advance(100)
+        mode = rng.choice(["one", "one", "two", "bye-first"])
+        if mode == "one":
+            sc.deliver([r_ptr(TY1, s.inst, 120), r_ptr(TY1, s.inst, 0)], 2, v4=True)
+        elif mode == "two":
+            sc.deliver([r_ptr(TY1, s.inst, 120)], 2, v4=True)
+            sc.deliver([r_ptr(TY1, s.inst, 0)], 2, v4=True)
+        else:
+            sc.deliver([r_ptr(TY1, s.inst, 0), r_ptr(TY1, s.inst, 120)], 2, v4=True)
+        return sc.finish(3000)
     if which == "stop-rebrowse":
         # browse; only the PTR arrives; stop_browse inside the follow-up window (1.5 s); browse again
         # at any later time; again only the PTR arrives: ServiceFound, and the follow-up question
